@@ -172,6 +172,55 @@ func buildCatalogue(c *Ctx) []buildCase {
 			}})
 		}
 	}
+	// 4b. which helpers and imports a file needs depends on the MIX of RPC shapes in it: every single
+	// shape alone and every pair (a conditional import decided by one shape and used by another)
+	type rpcShape struct {
+		label string
+		verb  int32
+		path  string
+		req   func() []*spec.Field
+	}
+	rpcShapes := []rpcShape{
+		{"get-plain", 1, "/g", func() []*spec.Field { return nil }},
+		{"get-query", 1, "/gq", func() []*spec.Field { return []*spec.Field{spec.F("term", 1, spec.String).Q("term")} }},
+		{"get-path", 1, "/gp/{item_id}", func() []*spec.Field { return []*spec.Field{spec.F("item_id", 1, spec.String)} }},
+		{"delete-path", 4, "/dp/{item_id}", func() []*spec.Field { return []*spec.Field{spec.F("item_id", 1, spec.String)} }},
+		{"post-body", 2, "/pb", func() []*spec.Field { return []*spec.Field{spec.F("name", 1, spec.String), spec.F("qty", 2, spec.Int64)} }},
+		{"post-empty", 2, "/pe", func() []*spec.Field { return nil }},
+		{"post-query", 2, "/pq", func() []*spec.Field { return []*spec.Field{spec.F("name", 1, spec.String), spec.F("dry_run", 2, spec.Bool).Q("dry_run")} }},
+		{"put-path-body", 3, "/pp/{item_id}", func() []*spec.Field { return []*spec.Field{spec.F("item_id", 1, spec.String), spec.F("name", 2, spec.String)} }},
+		{"patch-query-only", 5, "/pa", func() []*spec.Field { return []*spec.Field{spec.F("mask", 1, spec.String).Q("mask")} }},
+		{"post-required-header", 2, "/ph", func() []*spec.Field { return []*spec.Field{spec.F("name", 1, spec.String)} }},
+	}
+	for i := range rpcShapes {
+		for j := i; j < len(rpcShapes); j++ {
+			a, b := rpcShapes[i], rpcShapes[j]
+			id := "usage/" + a.label
+			if j != i {
+				id += "+" + b.label
+			}
+			out = append(out, buildCase{ID: id, TS: true, Files: func(pkg, goName string) []*spec.File {
+				return oneFile(pkg, goName, func(f *spec.File) {
+					svc := &spec.Service{Name: "MixService", BasePath: spec.S("/mix")}
+					f.Messages = []*spec.Message{{Name: "MixResp", Fields: []*spec.Field{spec.F("ok", 1, spec.Bool)}}}
+					shapes := []rpcShape{a}
+					if j != i {
+						shapes = append(shapes, b)
+					}
+					for k, sh := range shapes {
+						rn := fmt.Sprintf("Op%c", 'A'+k)
+						f.Messages = append(f.Messages, &spec.Message{Name: rn + "Req", Fields: sh.req()})
+						m := &spec.Method{Name: rn, In: "." + pkg + "." + rn + "Req", Out: "." + pkg + ".MixResp", HTTP: &spec.HTTP{Path: sh.path, Verb: sh.verb}}
+						if sh.label == "post-required-header" {
+							m.Headers = []spec.Header{{Name: "X-Idem-Key", Type: "string", Required: true}}
+						}
+						svc.Methods = append(svc.Methods, m)
+					}
+					f.Services = []*spec.Service{svc}
+				})
+			}})
+		}
+	}
 	// 5. header names -> option identifiers
 	for _, hn := range []struct{ label, name string }{{"x-api-key", "X-API-Key"}, {"authorization", "Authorization"}, {"x-request-id", "X-Request-ID"}, {"lowercase", "x-lower"}, {"multi-word", "X-Multi-Word-Name"},
 		{"leading-digit", "X-2FA-Code"}, {"underscore", "X_Under_Score"}, {"dot", "X-Dot.Name"}, {"if-none-match", "If-None-Match"}} {
